@@ -158,6 +158,7 @@ theorem gate_logon (s : Sess) (m : InMsg) (h0 : Obs.onLogon ∉ s.log) (h : Obs.
         | none =>
           obtain ⟨hb, hcc, ht, hsq, _⟩ := hv2 rfl
           rw [h3.cfg] at hb hcc
+          rw [h1.cfg] at hne
           refine ⟨⟨hb, hcc, hne⟩, ?_, rfl, ?_⟩
           · unfold TimeGate at ht ⊢
             have : curResend s4 = curResend s := by unfold curResend; rw [h3.st, h3.cfg]
